@@ -12,7 +12,42 @@ FOREIGN_NAMES = ['pitch', 'voice', 'accent']
 
 
 def units(tier):
-    return f1.all_units()
+    """element-content classes are explored; every other class (simple, simple-content, empty types) gets the fixed
+    unchecked scenario of leaf_scenario(): xsd_check=False must switch off structural checking for them too"""
+    content = set(lib.element_content_names())
+    return f1.all_units() + ['L:' + n for n in sorted(lib.MODEL['elements']) if n not in content]
+
+
+def leaf_scenario(name):
+    found = []
+    with lib.Capture():
+        try:
+            e = lib.make(name, xsd_check=False)
+        except Exception:
+            try:
+                e = lib.make(name, xsd_check=False, with_required=False)
+            except Exception:
+                return found
+        kids = []
+        try:
+            for f in FOREIGN_NAMES[:2]:
+                c = lib.make(f, xsd_check=False)
+                e.add_child(c)
+                kids.append(c)
+            if [id(x) for x in e.get_children()] != [id(x) for x in kids] or [id(x) for x in e.get_children(ordered=False)] != [id(x) for x in kids]:
+                found.append(('unchecked-children-not-in-insertion-order', name))
+            text = e.to_string()
+            if hist.out_children(text) != FOREIGN_NAMES[:2]:
+                found.append(('unchecked-output-not-in-insertion-order', text[:80]))
+            n = lib.make(FOREIGN_NAMES[2], xsd_check=False)
+            e.replace_child(kids[0], n)
+            e.remove(kids[1])
+            if [id(x) for x in e.get_children()] != [id(n)]:
+                found.append(('unchecked-children-not-in-insertion-order', 'after replace and remove'))
+            e.to_string()
+        except Exception as ex:
+            found.append(('unchecked-element-raises:%s' % type(ex).__name__, '%s: %s' % (name, str(ex)[:80])))
+    return found
 
 
 def alphabet(name, tier):
@@ -134,6 +169,12 @@ def mixed(name):
 
 
 def run_unit(name, tier, seed):
+    if name.startswith('L:'):
+        import collections as _c
+        nm = name[2:]
+        f = leaf_scenario(nm)
+        return dict(stats=_c.Counter(paths=1, decisions=1), cands=[dict(cls=nm, kind=k, witness=dict(leaf=True), detail=d) for k, d in f],
+                    samples=[], nontrivial=1, evaluations=1, funcs=['xmlelement/xmlelement.py:XMLElement.add_child'], bounds=dict(scenario='add 2 foreign children, serialise, replace, remove'))
     A = alphabet(name, tier)
     passes = [dict(kinds_by_depth=lambda d: KINDS if d <= 2 else ['ADD', 'REMOVE', 'REPLACE', 'DOTSET', 'DOTNONE', 'ADDSTALE'], D=6,
                    budget=2500 if tier == 'quick' else 30000, fwd=(-1, 2), alphabet=A)]
@@ -145,6 +186,11 @@ def run_unit(name, tier, seed):
 
 
 def replay(c):
+    if c['witness'].get('leaf'):
+        for k, d in leaf_scenario(c['cls']):
+            if k == c['kind']:
+                return True, d
+        return False, 'unchecked leaf-type element behaves'
     if c['witness'].get('mixed'):
         for k, d in mixed(c['cls']):
             if k == c['kind']:
